@@ -827,6 +827,10 @@ class Walker(object):
                 if a.meta is not None:
                     return a.meta
                 tgt = self.load(state, a.obj, a.proj)
+                if isinstance(tgt, SymObj) and tgt.ty[0] == "array":
+                    # a fixed-size array not touched yet (lazy object): its length is its type's
+                    tgt = self.materialise(tgt, state)
+                    self.store_to(state, a.obj, a.proj, tgt)
                 if isinstance(tgt, Agg) and tgt.kind == ("array",):
                     return K(len(tgt.fields), 64)
                 if isinstance(tgt, SymArr):
